@@ -72,3 +72,44 @@ func VerifC02Par() {
 	verifnd.Reach("C02.par.done")
 	verifnd.Reach("C02.par." + otherName)
 }
+
+// VerifC02FullQueue: a member whose outbound queue is full (its client has stopped reading for a while)
+// still gets every relay exactly once when it reads again: the relay waits for room, it is never dropped.
+func VerifC02FullQueue() {
+	w := newVWorld(0)
+	a, b, c := w.newConn(), w.newConn(), w.newConn()
+	a.mustJoin("")
+	b.mustJoin(a.sid)
+	c.mustJoin(a.sid)
+	w.drainAll()
+	// b's queue is filled up to its capacity with traffic it has not read yet
+	filler, _ := hwebsocket.MsgFromProto(&hagallpb.Response{Type: hagallpb.MsgType_MSG_TYPE_PING_RESPONSE, Timestamp: vts(), RequestId: 1})
+	for len(b.h.sendChan) < cap(b.h.sendChan) {
+		b.h.sendChan <- filler
+	}
+	done := make(chan struct{})
+	go func() {
+		a.do(&hagallpb.CustomMessage{Type: hagallpb.MsgType_MSG_TYPE_CUSTOM_MESSAGE, Timestamp: vts(), Body: []byte{42}})
+		close(done)
+	}()
+	verifnd.Quiesce()
+	// b reads again
+	got := 0
+	for i := 0; i < 3; i++ {
+		for _, m := range b.drain() {
+			if typeNum(m) == int32(hagallpb.MsgType_MSG_TYPE_CUSTOM_MESSAGE_BROADCAST) {
+				got++
+			}
+		}
+		verifnd.Quiesce()
+	}
+	<-done
+	for _, m := range b.drain() {
+		if typeNum(m) == int32(hagallpb.MsgType_MSG_TYPE_CUSTOM_MESSAGE_BROADCAST) {
+			got++
+		}
+	}
+	verifnd.Assert(got == 1, "C02.full_queue.relay_not_dropped")
+	verifnd.Assert(countType(c.drain(), hagallpb.MsgType_MSG_TYPE_CUSTOM_MESSAGE_BROADCAST) == 1, "C02.full_queue.others_get_it_once")
+	verifnd.Reach("C02.full_queue.done")
+}
